@@ -273,61 +273,68 @@ impl Tzif {
         // We need to estimate a tz pair.
         // First search the ambiguous seconds.
         let db = self.get_data_block2()?;
-        let b_search_result = db.transition_times.binary_search(seconds);
-
-        let estimated_idx = match b_search_result {
-            // TODO: Double check returning early here with tests.
-            Ok(idx) => return Ok(get_local_record(db, idx).into()),
-            // Before the first transition local time is specified by time type 0.
-            Err(0) => {
-                return Ok(LocalTimeRecordResult::Single(
-                    db.local_time_type_records[0].into(),
-                ))
-            }
-            Err(idx) => {
-                if db.transition_times.len() <= idx {
-                    // The transition time provided is beyond the length of
-                    // the available transition time, so the time zone is
-                    // resolved with the POSIX tz string.
-                    return resolve_posix_tz_string(
-                        self.posix_tz_string()
-                            .ok_or(TemporalError::general("Could not resolve time zone."))?,
-                        seconds.0,
-                    );
-                }
-                idx
-            }
+        let times = &db.transition_times;
+        // Number of transitions at or before `seconds` when it is read as a UTC value.
+        let estimated_idx = match times.binary_search(seconds) {
+            Ok(idx) => idx + 1,
+            Err(idx) => idx,
         };
 
-        // The estimated index will be off based on the amount missing
-        // from the lack of offset.
-        //
-        // This means that we may need (idx, idx - 1) or (idx - 1, idx - 2)
-        let record = get_local_record(db, estimated_idx);
-        let record_minus_one = get_local_record(db, estimated_idx - 1);
+        // A UTC offset is always less than 26 hours, so only the transitions
+        // within that distance of the local value can apply to it.
+        const MAX_OFFSET: i64 = 26 * 3600;
 
-        // Q: Potential shift bugs with odd historical transitions? This
-        //
-        // Shifts the 2 rule window for positive zones that would have returned
-        // a different idx.
-        let shift_window = usize::from((record.utoff + record_minus_one.utoff) >= Seconds(0));
-
-        let new_idx = estimated_idx - shift_window;
-
-        let current_transition = db.transition_times[new_idx];
-        let current_diff = *seconds - current_transition;
-
-        let initial_record = get_local_record(db, new_idx - 1);
-        let next_record = get_local_record(db, new_idx);
-
-        // Adjust for offset inversion from northern/southern hemisphere.
-        let offset_range = offset_range(initial_record.utoff.0, next_record.utoff.0);
-        match offset_range.contains(&current_diff.0) {
-            true if next_record.is_dst => Ok(LocalTimeRecordResult::Empty),
-            true => Ok((next_record, initial_record).into()),
-            false if current_diff <= initial_record.utoff => Ok(initial_record.into()),
-            false => Ok(next_record.into()),
+        if !times
+            .last()
+            .is_some_and(|last| seconds.0 - last.0 <= MAX_OFFSET)
+        {
+            // The local time is beyond the available transition times, so the
+            // time zone is resolved with the POSIX tz string.
+            return match self.posix_tz_string() {
+                Some(posix_tz_string) => resolve_posix_tz_string(posix_tz_string, seconds.0),
+                None if times.is_empty() => Ok(db.local_time_type_records[0].into()),
+                None => Err(TemporalError::general("Could not resolve time zone.")),
+            };
         }
+
+        let mut first = estimated_idx;
+        while first > 0 && seconds.0 - times[first - 1].0 <= MAX_OFFSET {
+            first -= 1;
+        }
+        let mut last = estimated_idx;
+        while last < times.len() && times[last].0 - seconds.0 <= MAX_OFFSET {
+            last += 1;
+        }
+
+        // Local time before the first transition is specified by the first time type (time type 0).
+        let record_before = |idx: usize| match idx {
+            0 => db.local_time_type_records[0],
+            _ => get_local_record(db, idx - 1),
+        };
+
+        // The local value is skipped or repeated when it is between the two wall-clock
+        // readings of a transition.
+        for idx in first..last {
+            let initial_record = record_before(idx);
+            let next_record = get_local_record(db, idx);
+            let diff = seconds.0 - times[idx].0;
+            if offset_range(initial_record.utoff.0, next_record.utoff.0).contains(&diff) {
+                return if initial_record.utoff < next_record.utoff {
+                    Ok(LocalTimeRecordResult::Empty)
+                } else {
+                    Ok((next_record, initial_record).into())
+                };
+            }
+        }
+
+        // Otherwise it is read with the offset of the latest transition it is not before.
+        for idx in (first..last).rev() {
+            let next_record = get_local_record(db, idx);
+            if seconds.0 - times[idx].0 >= next_record.utoff.0 {
+                return Ok(next_record.into());
+            }
+        }
+        Ok(record_before(first).into())
     }
 }
 
